@@ -36,7 +36,7 @@ PROPS = {
                      'errors: on Err the final state is not constrained by the contract'],
     ),
     'C04': dict(
-        units=['driver'],
+        units=['driver', 'insert'],
         kani_quick=[],
         kani_thorough=['incremental_rebuild_monotone'],
         design_ref='DESIGN.md section 4 (U-REBUILD, U-DISP) and section 5 C04',
@@ -45,7 +45,8 @@ PROPS = {
                    'the database is canonical on EVERY exit path, Ok and Err alike, given that it was canonical on entry; the rebuild '
                    'loop only stops after a pass in which container rebuild, table rebuild and row refresh all report no change, '
                    'in that order and with that pass\'s dirty ids and timestamp; rebuild runs whenever the union-find grew. '
-                   'Per-table invariants (what one apply_rebuild pass does, key uniqueness in SortedWritesTable) are assumed contracts.',
+                   '(insert) the real SortedWritesTable::serial_insert keeps "at most one live row per key, every live row indexed, every index entry live" for every batch of pending rows and every merge function. '
+                   'What one apply_rebuild pass does, and key uniqueness through parallel_insert / rebuild re-insertion, are assumed contracts.',
         level_note='Trusted (A-db): Database::{merge_all, run_rule_set} keep a canonical database canonical unless the union-find grew; '
                    'a rebuild pass in which rebuild_containers, apply_rebuild and refresh_rows_for_values all report no change leaves '
                    'the database canonical; inc_counter/read_counter; Query::build_cached_plan does not touch table contents; '
@@ -56,7 +57,7 @@ PROPS = {
                      'EGraph struct projected onto the fields the verified functions use'],
     ),
     'C05': dict(
-        units=['merge'],
+        units=['merge', 'insert'],
         replay_units=['tablepaths'],
         kani_quick=[],
         kani_thorough=['combine_subsumed_algebra', 'schema_math_layout', 'write_table_row_vec', 'id_axioms_u32'],
@@ -66,13 +67,16 @@ PROPS = {
                    'invokes the panic function exactly when a :no-merge conflict or a failed primitive/lookup occurs, and stages exactly the '
                    'union rows of the UnionId nodes; (b) the closure built by MergeFn::to_callback reports `changed` exactly when the merged value '
                    'or merged subsume flag differs from the stored one and then writes the whole row: incoming keys, mval, INCOMING timestamp, '
-                   'max of the flags; (c) min/max are ACI so the fold over writes is order independent. Whether the table applies the callback '
-                   'on every collision (serial/parallel insert, staged outputs, rebuild re-insertion) is NOT covered: assumed.',
+                   'max of the flags; (c) min/max are ACI so the fold over writes is order independent; (d) (unit insert) the real SortedWritesTable::serial_insert applies the merge '
+                   'callback on EVERY collision of the serial path: the final table is the initial one with each pending row applied in turn (chain/applied): key absent -> the row is stored; '
+                   'key present -> the stored row is replaced by the MERGED row iff the callback reports a change, and nothing else changes. Whether the other three paths apply the callback '
+                   '(parallel insert, staged outputs, rebuild re-insertion) is NOT covered: assumed.',
         level_note='Trusted: ExecutionState::{stage_insert, call_external_func, read_counter} as ghost logs; external functions and '
                    'TableAction::lookup_or_insert as functions of their arguments; SchemaMath::write_table_row (generic impl-Trait code; assumed contract); '
                    'NumericId axioms; core::cmp::min/max; rewrites R-LIFT, R-MAPCOLLECT, R-UNWRAPORELSE, R-THEN, R-BOOLOP, R-ASSERT (panic = divergence). '
                    'Known unverified defect F2 (parallel_insert drops the merged row) lies in the assumed part; see DESIGN.md section 8.',
-        assumptions=['SortedWritesTable collision paths (serial_insert, parallel_insert, StagedOutputs::insert, rebuild) are assumed to apply the callback; F2 shows parallel_insert does not',
+        assumptions=['SortedWritesTable collision paths other than serial_insert (parallel_insert, StagedOutputs::insert, rebuild) are assumed to apply the callback; F2 shows parallel_insert does not',
+                     'serial_insert is proved over assumed contracts for the row store (Rows::get_row/add_row/set_stale), the sharded hash table (get_entry_mut, insert_unique; shards viewed as one map) and the dyn Fn merge callback as a pure function (mch/mo)',
                      'translate_expr_to_mergefn / MergeFn::resolve not covered'],
     ),
     'C13': dict(
@@ -106,7 +110,7 @@ PROPS = {
         assumptions=['engine-level re-timestamping during rebuild and the join engine honouring the constraints are assumed'],
     ),
     'C16': dict(
-        units=['disp', 'swt', 'index'],
+        units=['disp', 'swt', 'index', 'insert'],
         replay_units=['tableapi'],
         kani_quick=[],
         kani_thorough=['id_axioms_u32', 'uf_reset', 'offsets_intersect_dense_dense', 'offsets_scan_for_offset', 'offsets_binary_search_from'],
@@ -118,7 +122,7 @@ PROPS = {
                    'EXACTLY the rows satisfying the constraint, timestamp range search returns exactly the rows with that timestamp. Built on the verified '
                    'UnionFind (same generated file, callers checked against its contracts). For SortedWritesTable (unit swt): binary_search_sort_val returns exactly the row range of the run '
                    'with the given sort value (or the partition point), and fast_subset on the sort column returns EXACTLY the rows whose sort value (timestamp) satisfies the constraint, '
-                   'over the offsets abstraction (runs of strictly increasing sort values and row ids). (unit index) SubsetTracker::recent_updates hands out only the rows added since the version seen last within a major generation and everything otherwise, and records the version; Index::refresh is a no-op iff the versions agree, a full rebuild iff the major generation changed, the delta otherwise, and ends at the table\'s version. The row store, hash shards, insert/rehash/rebuild of SortedWritesTable and the index contents are NOT covered.',
+                   'over the offsets abstraction (runs of strictly increasing sort values and row ids). (unit index) SubsetTracker::recent_updates hands out only the rows added since the version seen last within a major generation and everything otherwise, and records the version; Index::refresh is a no-op iff the versions agree, a full rebuild iff the major generation changed, the delta otherwise, and ends at the table\'s version. (unit insert) SortedWritesTable::serial_insert keeps the keyed-map invariant (one live row per key, hash entries = live rows, stored hash = hash of the key) and realises exactly the map update of each pending row (superseded rows are marked stale and leave the index). The row store, hash shards, parallel insert/rehash/rebuild/remove of SortedWritesTable and the index contents are NOT covered.',
         level_note='Trusted: HashMap as a finite map (A-hash), [T]::binary_search_by_key specification for a total key closure (A-std), NumericId axioms, '
                    'OffsetRange::new debug_assert taken as precondition; merge()/get_row() (SegQueue, pool closures) not covered. '
                    'Trait impl `impl Table for DisplacedTable` emitted as inherent impl (R-INHERENT).',
